@@ -11,9 +11,23 @@
        release             KUnlock ; KClose ; flag := false
 
    and a process can be killed (LKill: the kernel closes every descriptor of the process).  The kernel keeps the table
-   of open descriptions of the lock file (`l_open`: description, the handle that opened it) and the owner of the
-   advisory lock, under one of the two ownership disciplines of Model/ProcLockBase.v.  The discipline the SOURCE uses
-   is Gen/GenFileLock.v `gen_lock_disc`, regenerated on every run.
+   of REFERENCES to open descriptions of the lock file (`l_open`: description, a handle that has a descriptor for it)
+   and the owner of the advisory lock, under one of the two ownership disciplines of Model/ProcLockBase.v.  The
+   discipline the SOURCE uses is Gen/GenFileLock.v `gen_lock_disc`, regenerated on every run.
+
+   DESCRIPTOR INHERITANCE.  A writer process can also come into being by fork(): the child gets a copy of the handle
+   OBJECT and of every open descriptor, and an inherited descriptor refers to the SAME open file description as the
+   parent's (`LFork h h'`: handle h' -- a new handle, in the process `proc h'` -- becomes the twin of h: two handles
+   sharing one description).  For a description with several references the kernel's rules are flock(2)'s: a lock
+   attempt through ANY reference to the owning description is granted (it merely re-locks), an unlock through any
+   reference drops the lock for all of them, and closing a descriptor drops the lock only when it was the LAST
+   reference (`close_release`, `owner_after_kill`).  The twin's program state is what the copied object fields say:
+   holding (flag set, descriptor stored) if the original holds or is inside release(), idle otherwise -- an attempt in
+   progress lives in a local variable of a thread that does not exist in the child; the descriptor leaks there.
+   A fork is QUIESCENT when the copied handle is idle (`fork_quiescent`: the application forks its workers between
+   commits, not from inside one).  FileLock opens the lock file per attempt and closes it on refusal and in release(),
+   so an idle handle holds no descriptor and a quiescent fork inherits NOTHING: that is what the theorems rest on, and
+   what a handle that kept its descriptor across acquisitions would break (Model/ProcLockKeep.v).
 
    Commit.v abstracts all of this to `w_lock : option aid` with `lockkind = Excl`: an attempt succeeds iff nobody
    holds, and a holder cannot lose the lock (Commit.v's `holds` is constantly true: the fence reads the handle's local flag).
@@ -46,7 +60,7 @@ Record lstate := {
   l_h : hid -> hstate }.
 
 Inductive lkind := KOpen | KTry (ok : bool) | KCloseRefused | KUnlock | KClose.
-Inductive levent := LStep (h : hid) (k : lkind) | LKill (p : pid).
+Inductive levent := LStep (h : hid) (k : lkind) | LKill (p : pid) | LFork (h h' : hid).
 
 Definition linit : lstate := {| l_open := []; l_next := 0; l_owner := None; l_h := fun _ => HIdle |}.
 
@@ -75,8 +89,21 @@ Definition release_by (dc : disc) (proc : hid -> pid) (o : option lowner) (d : f
   | None => None
   end.
 
-Definition close_fd (l : list (fdn * hid)) (d : fdn) : list (fdn * hid) :=
-  filter (fun x => negb (Nat.eqb (fst x) d)) l.
+(* handle h closes ITS descriptor of description d: that reference goes away, the others stay *)
+Definition close_ref (l : list (fdn * hid)) (d : fdn) (h : hid) : list (fdn * hid) :=
+  filter (fun x => negb (Nat.eqb (fst x) d && Nat.eqb (snd x) h)) l.
+
+(* is some descriptor of description d still open? *)
+Definition still_open (l : list (fdn * hid)) (d : fdn) : bool := existsb (fun x => Nat.eqb (fst x) d) l.
+
+(* what the close of h's descriptor of d does to the lock; l' = the reference table after the close.
+   flock: the lock goes away with the LAST descriptor of the owning description.  POSIX record locks: with ANY
+   descriptor of the file the process closes. *)
+Definition close_release (dc : disc) (proc : hid -> pid) (o : option lowner) (l' : list (fdn * hid)) (d : fdn) (h : hid) : option lowner :=
+  match dc with
+  | ByDescription => if still_open l' d then o else release_by dc proc o d h
+  | ByProcess => release_by dc proc o d h
+  end.
 
 Fixpoint opener (l : list (fdn * hid)) (d : fdn) : option hid :=
   match l with
@@ -87,15 +114,22 @@ Fixpoint opener (l : list (fdn * hid)) (d : fdn) : option hid :=
 Definition in_proc (proc : hid -> pid) (p : pid) (h : hid) : bool := Nat.eqb (proc h) p.
 
 (* process death: what the kernel does to the lock owner *)
+Definition refs_after_kill (proc : hid -> pid) (s : lstate) (p : pid) : list (fdn * hid) :=
+  filter (fun x => negb (in_proc proc p (snd x))) (l_open s).
+
 Definition owner_after_kill (proc : hid -> pid) (s : lstate) (p : pid) : option lowner :=
   match l_owner s with
-  | Some (OwnD d) => match opener (l_open s) d with
-                     | Some h => if in_proc proc p h then None else Some (OwnD d)
-                     | None => Some (OwnD d)
-                     end
+  | Some (OwnD d) => if still_open (refs_after_kill proc s p) d then Some (OwnD d) else None
   | Some (OwnP p') => if Nat.eqb p' p then None else Some (OwnP p')
   | None => None
   end.
+
+(* fork: the references of the copied handle, duplicated for its twin; the twin's state = the copied object fields *)
+Definition inherited (l : list (fdn * hid)) (h h' : hid) : list (fdn * hid) :=
+  map (fun x => (fst x, h')) (filter (fun x => Nat.eqb (snd x) h) l).
+Definition twin_state (x : hstate) : hstate :=
+  match x with HHeld d | HUnlocked d => HHeld d | _ => HIdle end.
+Definition has_refs (l : list (fdn * hid)) (h : hid) : bool := existsb (fun x => Nat.eqb (snd x) h) l.
 
 Definition lupd (f : hid -> hstate) (h : hid) (x : hstate) : hid -> hstate := fun k => if Nat.eqb k h then x else f k.
 
@@ -114,27 +148,51 @@ Definition lstep (dc : disc) (proc : hid -> pid) (s : lstate) (e : levent) : opt
         else Some {| l_open := l_open s; l_next := l_next s; l_owner := l_owner s; l_h := lupd (l_h s) h (HRefused d) |}
       else None
     | KCloseRefused, HRefused d =>
-      Some {| l_open := close_fd (l_open s) d; l_next := l_next s; l_owner := release_by dc proc (l_owner s) d h;
+      Some {| l_open := close_ref (l_open s) d h; l_next := l_next s;
+              l_owner := close_release dc proc (l_owner s) (close_ref (l_open s) d h) d h;
               l_h := lupd (l_h s) h HIdle |}
     | KUnlock, HHeld d =>
       Some {| l_open := l_open s; l_next := l_next s; l_owner := release_by dc proc (l_owner s) d h;
               l_h := lupd (l_h s) h (HUnlocked d) |}
     | KClose, HUnlocked d =>
-      Some {| l_open := close_fd (l_open s) d; l_next := l_next s; l_owner := release_by dc proc (l_owner s) d h;
+      Some {| l_open := close_ref (l_open s) d h; l_next := l_next s;
+              l_owner := close_release dc proc (l_owner s) (close_ref (l_open s) d h) d h;
               l_h := lupd (l_h s) h HIdle |}
     | _, _ => None
     end
   | LKill p =>
-    Some {| l_open := filter (fun x => negb (in_proc proc p (snd x))) (l_open s); l_next := l_next s;
+    Some {| l_open := refs_after_kill proc s p; l_next := l_next s;
             l_owner := owner_after_kill proc s p;
             l_h := fun h => if in_proc proc p h then HDead else l_h s h |}
+  | LFork h h' =>
+    (* h' is a NEW handle (idle, no descriptor of its own) in another process; a dead process does not fork *)
+    match l_h s h', l_h s h with
+    | HIdle, HDead => None
+    | HIdle, x =>
+      if negb (Nat.eqb (proc h) (proc h')) && negb (has_refs (l_open s) h') then
+        Some {| l_open := l_open s ++ inherited (l_open s) h h'; l_next := l_next s; l_owner := l_owner s;
+                l_h := lupd (l_h s) h' (twin_state x) |}
+      else None
+    | _, _ => None
+    end
   end.
+
+(* the application forks between commits: the copied handle is idle *)
+Definition fork_quiescent (s : lstate) (e : levent) : Prop :=
+  match e with LFork h _ => l_h s h = HIdle | _ => True end.
 
 (* every event list is a schedule: events that are not enabled are skipped *)
 Definition lstep_skip (dc : disc) (proc : hid -> pid) (s : lstate) (e : levent) : lstate :=
   match lstep dc proc s e with Some s' => s' | None => s end.
 Definition lrun (dc : disc) (proc : hid -> pid) (s : lstate) (evs : list levent) : lstate :=
   fold_left (lstep_skip dc proc) evs s.
+
+(* every fork of the event list happens while the handle it copies is idle *)
+Fixpoint forks_quiescent (dc : disc) (proc : hid -> pid) (s : lstate) (evs : list levent) : Prop :=
+  match evs with
+  | [] => True
+  | e :: evs' => fork_quiescent s e /\ forks_quiescent dc proc (lstep_skip dc proc s e) evs'
+  end.
 
 (* trace validation: the first event that is not enabled is reported by its index *)
 Fixpoint lrun_strict (dc : disc) (proc : hid -> pid) (s : lstate) (evs : list levent) (i : nat) : lstate + nat :=
@@ -160,7 +218,7 @@ Definition lock_view (s : lstate) : option hid :=
      the holder's unlock frees the lock                                                             (ERelease)
      a process death     frees the lock iff the holder lived in that process                       (ECrash)
      everything else -- opening the lock file, closing the descriptor of a refused attempt, closing the descriptor after
-     one's own unlock, by a handle in the holder's process or in any other -- leaves the holder the holder. *)
+     one's own unlock, by a handle in the holder's process or in any other, a (quiescent) fork -- leaves the holder the holder. *)
 Definition view_effect (proc : hid -> pid) (s : lstate) (e : levent) (s' : lstate) : Prop :=
   match e with
   | LStep h (KTry true) => lock_view s = None /\ lock_view s' = Some h
@@ -171,6 +229,7 @@ Definition view_effect (proc : hid -> pid) (s : lstate) (e : levent) (s' : lstat
                               | None => None
                               end
   | LStep _ _ => lock_view s' = lock_view s
+  | LFork _ _ => lock_view s' = lock_view s
   end.
 
 (* ---- the program of a handle, as primitive actions (compared with the regenerated skeleton) *)
